@@ -29,6 +29,10 @@ type Opt<T> =
   | Some of T
   | None
 
+type Tag<T> =
+  | TagA
+  | TagB
+
 type V =
   | P of int*string
   | Q of R
